@@ -34,7 +34,8 @@ const (
 	goBin    = "go1.26.8"
 )
 
-var binPath = filepath.Join(verifDir, "bin", "sim.test")
+// one worker binary per driver process, so that concurrent checks never replace each other's binary
+var binPath = filepath.Join(verifDir, "bin", fmt.Sprintf("sim.%d.test", os.Getpid()))
 
 type ViolationRec struct {
 	Prop    string            `json:"property"`
@@ -258,12 +259,16 @@ func main() {
 		if len(os.Args) < 4 {
 			die(2, "usage: vdrive check <Cxx> <quick|thorough>")
 		}
-		os.Exit(check(os.Args[2], os.Args[3]))
+		rc := check(os.Args[2], os.Args[3])
+		os.Remove(binPath)
+		os.Exit(rc)
 	case "replay":
 		if len(os.Args) < 3 {
 			die(2, "usage: vdrive replay <file>")
 		}
-		os.Exit(replayCmd(os.Args[2]))
+		rc := replayCmd(os.Args[2])
+		os.Remove(binPath)
+		os.Exit(rc)
 	case "selftest":
 		if len(os.Args) < 3 {
 			die(2, "usage: vdrive selftest <Cxx> [episodes]")
@@ -277,9 +282,11 @@ func main() {
 		defer os.RemoveAll(dir)
 		seed := envSeed(20260101)
 		if msg := selftest(dir, os.Args[2], seed, n, 2); msg != "" {
+			os.Remove(binPath)
 			fmt.Println("NONDETERMINISM:", msg)
 			os.Exit(2)
 		}
+		os.Remove(binPath)
 		fmt.Printf("selftest %s: %d episodes x 6 processes (GOMAXPROCS 1/4/16) identical\n", os.Args[2], n)
 	default:
 		die(2, "unknown command")
